@@ -159,6 +159,23 @@ CLAIMED["C09"] = dict(
               "implementation oracles",
 )
 
+CLAIMED["C06"] = dict(
+    text="Coq theorems: (1) for ANY message mix and ANY receiver event list of sent DATA chunks (any "
+         "loss/dup/reorder) plus ARBITRARY FORWARD-TSN chunks, every delivery is (stream, ppid, data) of a sent "
+         "message; (2) _maybe_abandon abandons whole messages: back to the B fragment, forward to the E fragment, "
+         "including fragments not yet sent; (3) in every reachable sender state _transmit never hands an abandoned "
+         "chunk to the network; (4) abandonment preserves the sender's no-deadlock invariant. PARTIAL: "
+         "non-interference between channels and recovery after healing are end-to-end statements, observed on the "
+         "two-endpoint simulator (mixed reliable / PR channels, faults, heal, probe message per channel), not "
+         "proved; six genuine stall/loss defects found that way are repaired in /repo.",
+    design_ref="5 / C06",
+    note="Uses Model/SctpTx.v (sender) and Model/SctpRecv.v (receiver), each tied to the real RTCSctpTransport by "
+         "its differential run (sender histories dominated by retransmit-/lifetime-limited messages larger than "
+         "cwnd; receiver event lists with FORWARD-TSN). Virtual clock; lifetimes are integers.",
+    technique="Coq proof (structural lemmas on the zipper model, inductive invariant) + model/implementation "
+              "correspondence + two-endpoint oracle",
+)
+
 NOT_YET = "check not built yet in this development snapshot (planned, see DESIGN.md section 10)"
 
 
